@@ -3,7 +3,10 @@
 
 use crate::driver::*;
 use crate::forkrun::{fork_case, ChildEnd};
-use crate::reg::{sim_deliver, SIGS};
+use crate::reg::sim_deliver;
+
+/// watched signals: the lowest and the highest valid numbers and one in between
+pub const SIGS: [c_int; 3] = [libc::SIGHUP, libc::SIGUSR2, 64];
 use crate::vsched::{self, Config, Exec, Item, Nested, Outcome, RunResult};
 use libc::c_int;
 use proptest::collection::vec;
@@ -770,6 +773,14 @@ pub fn analyse(case: &IterCase, res: &RunResult) -> CaseReport {
             }
         }
     }
+    // C18: mutators (add_signal, drop) and deliveries must not wedge each other
+    match &res.outcome {
+        Outcome::Deadlock(b) if b.iter().any(|(_, s)| s.contains("BlockedMutex")) => {
+            rep.viol("C18/deadlock", format!("iterator add/drop calls deadlocked: {:?}", b));
+        }
+        Outcome::StepBound => rep.viol("C18/step-bound", "iterator scenario did not finish within the step bound".into()),
+        _ => {}
+    }
     // (3) poll contract is checked on-line (C11/pending-without-callback)
     for cl in &closes {
         if calls.iter().any(|c| c.2 == 0 && matches!(c.0, "wait" | "pending" | "forever" | "poll_signal" | "new") && c.3 < cl.0 && c.4.map_or(true, |r| r > cl.0)) {
@@ -791,7 +802,7 @@ pub fn analyse(case: &IterCase, res: &RunResult) -> CaseReport {
     rep.count("deliveries", dels.len() as u64);
     rep.count("yields", yields.len() as u64);
     let nt01 = !case.late.is_empty();
-    rep.nontrivial_by = vec![("C09".into(), nt09), ("C10".into(), nt10), ("C11".into(), nt11), ("C03".into(), nt09), ("C01".into(), nt01)];
+    rep.nontrivial_by = vec![("C09".into(), nt09), ("C10".into(), nt10), ("C11".into(), nt11), ("C03".into(), nt09), ("C01".into(), nt01), ("C18".into(), log.iter().any(|r| matches!(r.item, Item::Blocked { what: "mutex", .. })))];
     rep.nontrivial = nt09 || nt10 || nt11;
     // C03 on iterator actions: reuse the op-kind rule inside deliveries
     for d in dels.iter().filter(|d| d.target == 1) {
